@@ -599,6 +599,9 @@ def run(model, rep):
     from . import shared as _shared
     _shared.rule_len_after_encode(model, rep, "C01.o-length-in-bytes", ("passlib.handlers", "passlib.utils.handlers", "libpass.hashers"), minimum=20)
     _shared.rule_case_after_decode(model, rep, "C01.p-case-folding-on-text", ("passlib.handlers", "passlib.utils.handlers", "libpass.hashers"), minimum=5)
+    nb = _shared.rule_bytes_case_folding(model, rep, "C01.p-case-folding-on-text", ("passlib.handlers", "libpass.hashers"))
+    if nb < 5:
+        rep.undecided("C01.p-case-folding-on-text", "<instance-count>", f"only {nb} bytes branches found, expected at least 5")
     # hash() / verify() reach the checksum through the lazily selected backend: the selection state is written by set_backend alone and a
     # dry-run query installs nothing (rule shared with C03)
     from . import c03 as _c03
